@@ -11,7 +11,7 @@ WT=/tmp/iwe-seedverify/$NAME
 export CARGO_NET_OFFLINE=true
 rm -rf "$WT"; git -C /repo worktree prune
 git -C /repo worktree add --detach "$WT" HEAD -q || exit 3
-cp -r /repo/target "$WT/target" 2>/dev/null
+cp -a "${WARM_TARGET:-/repo/target}" "$WT/target" 2>/dev/null
 cd "$WT"
 demos=$(cd "$SEED/demo" && find . -type f | sed 's|^\./||')
 for d in $demos; do mkdir -p "$(dirname "$d")"; cp "$SEED/demo/$d" "$d"; done
